@@ -22,6 +22,39 @@ class InvertIf(ast.NodeTransformer):
         return n
 
 
+class ExtractCond(ast.NodeTransformer):
+    """`if <compound test>: ...` -> `cond_k = <test>; if cond_k: ...` for if-statements directly in function bodies
+    (not elif chains, not loops): naming a decision is the most common behaviour-preserving edit."""
+    def __init__(self):
+        self.k = 0
+
+    def _block(self, body):
+        out = []
+        for st in body:
+            if isinstance(st, ast.If) and isinstance(st.test, (ast.BoolOp, ast.Compare)) and not any(isinstance(x, (ast.NamedExpr, ast.Await, ast.Yield)) for x in ast.walk(st.test)):
+                self.k += 1
+                nm = f"cond_{self.k}"
+                out.append(ast.Assign(targets=[ast.Name(id=nm, ctx=ast.Store())], value=st.test))
+                st.test = ast.Name(id=nm, ctx=ast.Load())
+            out.append(st)
+        return out
+
+    def visit_FunctionDef(self, f):
+        self.generic_visit(f)
+        f.body = self._block(f.body)
+        return f
+
+    def visit_With(self, w):
+        self.generic_visit(w)
+        w.body = self._block(w.body)
+        return w
+
+    def visit_Try(self, t):
+        self.generic_visit(t)
+        t.body = self._block(t.body)
+        return t
+
+
 class RenameLocals(ast.NodeTransformer):
     """Rename function-local variables that are plain assignment targets (not params, not nonlocal/global, not
     captured by nested functions) by appending a suffix."""
@@ -94,6 +127,8 @@ def transform(root, kind):
                 tree = InvertIf().visit(tree)
             elif kind == "rename":
                 tree = RenameLocals().visit(tree)
+            elif kind == "extractcond":
+                tree = ExtractCond().visit(tree)
             elif kind in ("rename2", "rename3"):
                 out = rename_closure_vars(p, opaque=(kind == "rename3"))
                 compile(out, p, "exec")
@@ -111,7 +146,7 @@ def transform(root, kind):
 def main():
     kinds = [a for a in sys.argv[1:] if not a.startswith("--")] or ["all"]
     if kinds == ["all"]:
-        kinds = ["unparse", "flipcmp", "invertif", "rename", "rename2", "rename3"]
+        kinds = ["unparse", "flipcmp", "invertif", "rename", "rename2", "rename3", "extractcond"]
     bad = 0
     for kind in kinds:
         tmp = tempfile.mkdtemp(prefix="rxsa_rf_")
